@@ -274,6 +274,16 @@ macro_rules! groups {
             g.run("MontyForm.pow_bounded_exp(full)", || { let p = MontyParams::<N>::new(om); Some(w(&MontyForm::new(&x, p).pow_bounded_exp(&e, bits as u32).retrieve())) });
             g.runb("BoxedMontyForm.pow", || { let p = BoxedMontyParams::new_vartime(obm.clone()); Some(BoxedMontyForm::new(bxx.clone(), p).pow(&be).retrieve()) });
             g.emit(cx, "powmod", bits, &[("a", &xa), ("b", &fit(ev_.clone(), N)), ("m", &mv)], &[("pexp", bits as i64)]);
+            // bounded exponent: every window / limb boundary is reachable through the random bound
+            let kb = match it % 4 { 0 => cx.rng.below(bits + 1) as u32, 1 => (4 * cx.rng.below(bits / 4 + 1)) as u32, 2 => (cx.rng.below(bits) | 1) as u32, _ => (cx.rng.below(17)) as u32 };
+            let efull = nat(&mut cx.rng, N);
+            let (e2, be2) = (u::<N>(&efull), bx(&efull));
+            let mut g = Grp::new();
+            g.run("MontyForm.pow_bounded_exp(new)", || { let p = MontyParams::<N>::new(om); Some(w(&MontyForm::new(&x, p).pow_bounded_exp(&e2, kb).retrieve())) });
+            g.run("MontyForm.PowBoundedExp(new_vartime)", || { let p = MontyParams::<N>::new_vartime(om); Some(w(&vh::cb::PowBoundedExp::pow_bounded_exp(&MontyForm::new(&x, p), &e2, kb).retrieve())) });
+            g.runb("BoxedMontyForm.pow_bounded_exp", || { let p = BoxedMontyParams::new(obm.clone()); Some(BoxedMontyForm::new(bxx.clone(), p).pow_bounded_exp(&be2, kb).retrieve()) });
+            g.runb("BoxedMontyForm.PowBoundedExp", || { let p = BoxedMontyParams::new_vartime(obm.clone()); Some(vh::cb::PowBoundedExp::pow_bounded_exp(&BoxedMontyForm::new(bxx.clone(), p), &be2, kb).retrieve()) });
+            g.emit(cx, "powk", bits, &[("a", &xa), ("b", &efull), ("m", &mv)], &[("s", kb as i64), ("pexp", bits as i64)]);
         }
     }};
 }
